@@ -9,6 +9,7 @@ TRAITS = r'''
 #include <type_traits>
 #include <utility>
 #include <functional>
+#include <ostream>
 namespace PhQ { namespace phqv_use {
 #define PHQV_BIN(NAME, OP) \
   template <class A, class B, class = void> struct NAME : std::false_type {}; \
@@ -69,6 +70,11 @@ template <class Q, class N> void members(const Q& q) {
     (void)q.template StaticValue<u0>(); (void)q.template StaticValue<u1>();
     create_all<Q, N, u0>(); create_all<Q, N, u1>();
   }
+}
+template <class T, class = void> struct can_stream : std::false_type {};
+template <class T> struct can_stream<T, std::void_t<decltype(std::declval<std::ostream&>() << std::declval<const T&>())>> : std::true_type {};
+template <class A> void strm(std::ostream& os, const A& a) {
+  if constexpr (can_stream<A>::value) os << a;
 }
 template <class D, class S> void conv(D& d, const S& s) {
   if constexpr (std::is_constructible_v<D, const S&>) { D c(s); (void)c; }
@@ -212,7 +218,7 @@ def quantities_tu(types=('double',), other_types=('float',), classes=None, hash_
         for c in names:
             if c in ('ConstitutiveModel',):
                 continue
-            s += 'void use_%d(%s<%s>& a, %s<%s>& b, %s n) { cmps(a, b); scal(a, n); nmul(n, a); dims(a); }\n' % (
+            s += 'void use_%d(%s<%s>& a, %s<%s>& b, %s n, std::ostream& os) { cmps(a, b); scal(a, n); nmul(n, a); dims(a); strm(os, a); }\n' % (
                 n, c, t, c, t, t)
             n += 1
             if members:
@@ -231,6 +237,17 @@ def unit_types():
     """Unit enumeration types, from the header names under include/PhQ/Unit (each defines Unit::<Name>)."""
     d = os.path.join(astload.INC, 'PhQ', 'Unit')
     return sorted(f[:-4] for f in os.listdir(d) if f.endswith('.hpp'))
+
+
+def enum_count(u):
+    """Number of enumerators of Unit::<u>, counted in the header text (enum class <u> : int8_t { ... })."""
+    txt = open(os.path.join(astload.INC, 'PhQ', 'Unit', u + '.hpp')).read()
+    m = re.search(r'enum class %s\s*:\s*\w+\s*\{(.*?)\};' % re.escape(u), txt, re.S)
+    if not m:
+        return 0
+    body = re.sub(r'///[^\n]*', '', m.group(1))
+    body = re.sub(r'/\*.*?\*/', '', body, flags=re.S)
+    return len([x for x in body.split(',') if x.strip()])
 
 
 def units_tu(types=('double',), shapes=True, model_type=False):
@@ -253,6 +270,14 @@ def units_tu(types=('double',), shapes=True, model_type=False):
             if shapes:
                 s += '  ConvertInPlace(a3, a, b); ConvertInPlace(vv, a, b); ConvertInPlace(pv, a, b); ConvertInPlace(v, a, b); ConvertInPlace(sd, a, b); ConvertInPlace(d, a, b);\n'
                 s += '  (void)Convert(a3, a, b); (void)Convert(vv, a, b); (void)Convert(pv, a, b); (void)Convert(v, a, b); (void)Convert(sd, a, b); (void)Convert(d, a, b);\n'
+            # compile-time forms: three ordered pairs of distinct enumerators (the templates are generic in the pair)
+            if shapes:
+                n_en = enum_count(u)
+                pairs = [(0, 1), (1, 0)] + ([(n_en - 1, 1)] if n_en > 2 else [])
+                for (ea, eb) in pairs if n_en >= 2 else []:
+                    targs = '%s, static_cast<%s>(%d), static_cast<%s>(%d)' % (U, U, ea, U, eb)
+                    s += '  (void)ConvertStatically<%s>(x); (void)ConvertStatically<%s>(a3); (void)ConvertStatically<%s>(pv); (void)ConvertStatically<%s>(v); (void)ConvertStatically<%s>(sd); (void)ConvertStatically<%s>(d);\n' % (
+                        targs, targs, targs, targs, targs, targs)
             s += '  (void)Abbreviation(a); (void)ParseEnumeration<%s>("x"); (void)ConsistentUnit<%s>(UnitSystem::MetreKilogramSecondKelvin); (void)RelatedUnitSystem(a);\n' % (U, U)
             s += '}\n'
     s += 'void use_us(UnitSystem s) { (void)Abbreviation(s); (void)ParseEnumeration<UnitSystem>("x"); }\n'
